@@ -158,6 +158,17 @@ theorem Rel₂.forall_right {α β : Type} {R : α → β → Prop} {P : β → 
     · exact f _ _ hr
     · exact ih b h'
 
+theorem Rel₂.exists_left {α β : Type} {R : α → β → Prop} {l : List α} {l' : List β}
+    (h : Rel₂ R l l') : ∀ b ∈ l', ∃ a ∈ l, R a b := by
+  induction h with
+  | nil => intro b hb; cases hb
+  | cons hr _ ih =>
+    intro b hb
+    rcases List.mem_cons.mp hb with rfl | h'
+    · exact ⟨_, List.mem_cons_self .., hr⟩
+    · obtain ⟨a, ha, hab⟩ := ih b h'
+      exact ⟨a, List.mem_cons_of_mem _ ha, hab⟩
+
 theorem Ext.fresh {h1 h2 : Heap} (x : Ext h1 h2) {q : Id} (f : h2.get? q = none) : h1.get? q = none := by
   cases hh : h1.get? q with
   | none => rfl
